@@ -441,6 +441,15 @@ Theorem C01_lprop_top_level_rebindable_never_recorded : forall open bs (top : sc
   bound_once bs x = false -> ss_get x (snd (lp_stmt open bs false [top] (SLet x m e))) = None.
 Proof. exact top_level_rebindable_never_recorded. Qed.
 
+(* on expressions that neither call nor assign, the walk is the substitution kernel, leaves the scope
+   stack alone, and preserves meaning wherever every recorded constant is the value its variable
+   holds *)
+Theorem C01_lprop_expr_preserves_pure : forall o b d ss rho e,
+  pure e = true ->
+  (forall x k, known o d ss x = Some k -> exists v, peval rho k = ROk v /\ rho x = Some v) ->
+  peval rho (fst (lp_expr o b d ss e)) = peval rho e /\ snd (lp_expr o b d ss e) = ss.
+Proof. exact lp_expr_preserves_pure. Qed.
+
 (* PARTIAL: the whole-program preservation statement for this pass is not proved (per-program
    validation covers it).  Non-vacuity (inside a function body): propagation into later uses and
    into a loop bound, a folded initializer becomes a constant, a loop variable / lambda parameter /
